@@ -109,10 +109,14 @@ func ruleC08Tab(e *Env) {
 	}
 	zpos := e.tpos("size", zu)
 	zset := map[string]bool{}
-	for _, k := range zu.Keys {
+	for i, k := range zu.Keys {
 		if k == nil || k.Kind() != constant.String {
 			e.S.Unk(rule, "size.zeroUnits", "keys", "non-constant key", zpos)
 			return
+		}
+		// a set spelled map[string]bool: membership is the stored value (a key mapped to false is not a member)
+		if i < len(zu.Values) && zu.Values[i] != nil && zu.Values[i].Kind() == constant.Bool && !constant.BoolVal(zu.Values[i]) {
+			continue
 		}
 		zset[constant.StringVal(k)] = true
 	}
